@@ -148,6 +148,17 @@ impl Agg {
                 self.runs_with_fault[i] += 1;
             }
         }
+        if p.cfg.ncpu.is_some() || p.cfg.min_stride.is_some() {
+            self.faults[7] += 1;
+            self.runs_with_fault[7] += 1;
+        }
+        if p.cfg.batch <= 4 {
+            *self.extra.entry("runs_with_reclamation_pressure_batch_1_to_4".into()).or_insert(0) += 1;
+        }
+        let flushes = p.threads.iter().flatten().filter(|o| matches!(o, Op::Flush | Op::Refresh)).count() as u64;
+        if flushes > 0 {
+            *self.extra.entry("flush_or_refresh_operations".into()).or_insert(0) += flushes;
+        }
         self.contended += r.outcome.lock_contended;
         if r.outcome.max_runnable > 1 {
             self.multi_runnable += 1;
